@@ -421,6 +421,18 @@ pub fn udp_smoke(ctx: &Ctx) -> SubResult {
             let _ = probe.send_to(&payload, server_addr).await;
             garbage += 1;
         }
+        // Empty datagrams are legal UDP payloads too.
+        for _ in 0..3 {
+            let _ = probe.send_to(&[], server_addr).await;
+            garbage += 1;
+        }
+        tokio::time::sleep(Duration::from_millis(300)).await;
+        // Deterministic verdict: only undecodable datagrams were received, so the loop must still
+        // be running (this does not depend on timing: a terminated loop stays terminated).
+        if handle.termination_watcher().now_or_never_ready() {
+            let _ = tokio::time::timeout(Duration::from_secs(10), handle.shutdown()).await;
+            return Ok((garbage, u64::MAX));
+        }
         // The server must still answer.
         let mut answered = 0u64;
         let mut buf = vec![0u8; 65_536];
@@ -452,7 +464,11 @@ pub fn udp_smoke(ctx: &Ctx) -> SubResult {
             res.tally.evaluations += 1;
             res.tally.sum("garbage_datagrams", garbage);
             res.tally.sum("probes_answered", answered);
-            if answered == 0 {
+            if answered == u64::MAX {
+                let f = Failure::new("C19/udp-garbage-terminated-loop", "after receiving only undecodable datagrams (random bytes, truncated and bit-flipped messages, 65,507-byte and empty datagrams) on the real UDP transport the gossip loop has terminated");
+                let path = write_replay(ctx, "udp-loopback-smoke", &serde_json::json!({"udp_smoke": true}), &f);
+                res.violations.push(Violation { signature: f.signature, message: f.message, replay_path: path });
+            } else if answered == 0 {
                 // Real time + real sockets: a timeout is inconclusive, never a verdict.
                 res.inconclusive.push("udp smoke: no SYN-ACK within the real-time timeout".into());
             } else {
@@ -474,5 +490,8 @@ pub fn run(ctx: &Ctx, report: &mut Report) {
 }
 
 pub fn replay(ctx: &Ctx, sub: &str, case: &serde_json::Value) -> SubResult {
+    if sub == "udp-loopback-smoke" {
+        return udp_smoke(ctx);
+    }
     replay_case::<SrvCase, _>(ctx, sub, case, exec_srv)
 }
